@@ -72,16 +72,28 @@ pub async fn serve(
                     );
                 }
                 "unregister" | "unregistered" => {
-                    // Only remove if handler_id matches
-                    if let Some(meta) = &frame.meta {
-                        if let Some(handler_id) = meta.get("handler_id").and_then(|v| v.as_str()) {
-                            let key = (frame.context_id, topic.to_string());
+                    let key = (frame.context_id, topic.to_string());
+                    let handler_id = frame
+                        .meta
+                        .as_ref()
+                        .and_then(|meta| meta.get("handler_id"))
+                        .and_then(|v| v.as_str());
+                    match handler_id {
+                        // Only remove if handler_id matches
+                        Some(handler_id) => {
                             if let Some(state) = topic_states.get(&key) {
                                 if state.handler_id == handler_id {
                                     topic_states.remove(&key);
                                 }
                             }
                         }
+                        // A client's `.unregister` names no handler: a running handler stops on
+                        // any later `.unregister` of its name, so the registration before it is
+                        // gone even if the server died before `.unregistered` was written
+                        None if suffix == "unregister" => {
+                            topic_states.remove(&key);
+                        }
+                        None => {}
                     }
                 }
                 _ => {}
